@@ -105,7 +105,7 @@ def remove_redundant_chained_calls(source: str) -> str:
         arg = node.args[0].args[0]
         while core.match_template(arg, templates):
             arg = arg.args[0].args[0]
-        yield node, ast.Call(func=node.func, args=[arg], keywords=[])
+        yield node, ast.Call(func=node.func, args=[arg], keywords=node.keywords)
 
     # If inner is present, outer is redundant
     inner_outer_redundancy_mapping = {
